@@ -24,11 +24,7 @@ pub struct SingleCheck {
     pub ignore_differential: bool,
 }
 
-pub fn hash_of<T: Hash>(t: &T) -> u64 {
-    let mut h = DefaultHasher::new();
-    t.hash(&mut h);
-    h.finish()
-}
+pub use crate::violation::hash_of;
 
 const CONCURRENT: [Shape; 6] = [
     Shape::ForEach,
